@@ -627,6 +627,25 @@ func run(c *Ctx) {
 		if smpBad != "" {
 			c.Violate(Violation{Key: "sampler-of-path-wrong", Monitor: "path-sampler", Desc: smpBad + " (the sampler of a logger is the argument of the nearest Sample() on its derivation path, nil meaning none; every sampler here answers what the harness decided for the event at hand and records that it was asked)", Case: p})
 		}
+		// A program that uses a Context value as the receiver of two calls (K1, known finding ctx-value-branched) can leave a
+		// logger whose context is cut in the middle of a value (`..."k15":{`): the event's first field is then appended
+		// without a comma and the given arrays/dicts appear nested in that value.  What the open-at-once monitor reads,
+		// and the context part of the line shipped to the model, are then not well-defined: such programs are judged by
+		// path-spec (under K1's key) only.  (Thorough tier, seed 1, program 16801 raised a false pooled-object-shared
+		// alarm this way; DESIGN.md section 0.)
+		hasOpen := false
+		for _, st := range p {
+			if st.K == "emit" && st.Open != 0 {
+				hasOpen = true
+			}
+		}
+		if reuse && hasOpen {
+			openBad = ""
+			if modelToo {
+				modelToo = false
+				c.Hist("model_case", "K1 program with open-at-once events: monitors only")
+			}
+		}
 		if openBad != "" {
 			c.Violate(Violation{Key: "pooled-object-shared", Monitor: "open-at-once", Desc: openBad + " (the arrays/dicts an event is given were handed out twice by the pool, or carry something left by an earlier derivation step)", Case: p})
 		}
